@@ -501,8 +501,19 @@ def _verify_layout(model, bf, stats):
     assignments = _complete_assignments(model)
     stats["assignments"] += len(assignments)
     keymasks = []
+    kept = model.__dict__.setdefault("kept", {})
     for values in assignments:
-        scope = _call_scope(bf, values, "bit field scope")
+        # a program keeps the objects it derived earlier and asks them again
+        # after further definitions and layouts: half of the assignments are
+        # judged through the object made for them at an earlier layout
+        key = tuple(sorted(values.items()))
+        scope = kept.get(key) if sum(values.values()) % 2 == 0 else None
+        if scope is None:
+            scope = _call_scope(bf, values, "bit field scope")
+            if scope is not None:
+                kept[key] = scope
+        else:
+            stats["reused_objects"] = stats.get("reused_objects", 0) + 1
         enabled = list(model.enabled_fields(values))
         fits = all(values[f["name"]] < (1 << bitlen(max(f["max"], 1)))
                    or f["length"] is not None for n, f in enabled)
